@@ -6,7 +6,7 @@ CONSTANTS
   Pairings = {"A", "B"}
   Foreign = {"X"}
   Iids = {1, 2}
-  Vals = {1, 2}
+  Vals = {1}
   Starts = {1, 1000, 60000}
   KeyAtStart = {TRUE, FALSE}
   MaxSteps = 0
